@@ -122,19 +122,23 @@ Proof.
   destruct (1 <=? 62 + k) eqn:E1; [|lia].
   destruct (62 + k <=? 61) eqn:E2; [lia|].
   destruct (62 <=? 62 + k) eqn:E3; [|lia].
-  cbn [andb]. f_equal. f_equal. lia.
+  cbn [andb].
+  replace (62 + k - 62) with k by lia.
+  match goal with |- context [k <? ?b] => destruct (k <? b) eqn:E4 end.
+  - reflexivity.
+  - symmetry. apply nth_error_None. unfold len, entry in *. lia.
 Qed.
 
 Lemma lookup_invalid : forall (t : table) i, i <= 0 \/ 62 + len t.(entries) <= i ->
   lookup i t.(entries) = None.
 Proof.
-  intros t i H. unfold lookup, len in *.
+  intros t i H. unfold lookup.
   destruct H as [H|H].
   - destruct (1 <=? i) eqn:E1; [lia|]. cbn [andb].
     destruct (62 <=? i) eqn:E3; [lia|reflexivity].
-  - destruct (i <=? 61) eqn:E2; [lia|]. rewrite andb_false_r.
+  - destruct (i <=? 61) eqn:E2; [unfold len, entry in *; lia|]. rewrite andb_false_r.
     destruct (62 <=? i) eqn:E3; [|reflexivity].
-    apply nth_error_None. unfold entry. lia.
+    match goal with |- context [i - 62 <? ?b] => destruct (i - 62 <? b) eqn:E4 end; [unfold len, entry in *; lia|reflexivity].
 Qed.
 
 (** * Part 2: the model *)
@@ -418,7 +422,9 @@ Proof.
   unfold lookup. intros H.
   destruct ((1 <=? i) && (i <=? 61)).
   - left. eapply nth_error_In. exact H.
-  - destruct (62 <=? i); [|discriminate H]. right. eexists. exact H.
+  - destruct (62 <=? i); [|discriminate H]. cbn [andb] in H.
+    match type of H with context [?a <? ?b] => destruct (a <? b) end; [|discriminate H].
+    right. eexists. exact H.
 Qed.
 
 (** ** search *)
